@@ -195,6 +195,13 @@ func (x *Exec) inline(fr *Frame, st *State, fn *ssa.Function, args []Value, bind
 	return res
 }
 
+func rtOrUnit(rt types.Type) types.Type {
+	if rt == nil {
+		return types.NewTuple()
+	}
+	return rt
+}
+
 func zeroResults(x *Exec, fn *ssa.Function) []Value {
 	var out []Value
 	rs := fn.Signature.Results()
@@ -412,17 +419,20 @@ type implementer struct {
 }
 
 func (x *Exec) invoke(fr *Frame, st *State, site ssa.Instruction, c *ssa.CallCommon, args []Value, fv Value, rt types.Type, pos token.Pos) Value {
+	return x.invokeCore(fr, st, site, c.Value.Type(), c.Method.Name(), c.Signature(), args, fv, rt, pos)
+}
+
+// invokeCore: interface method call (also used by library models that call back, e.g. WriteTo).
+func (x *Exec) invokeCore(fr *Frame, st *State, site ssa.Instruction, itype types.Type, mname string, sig *types.Signature, args []Value, fv Value, rt types.Type, pos token.Pos) Value {
 	iv, ok := fv.(VIface)
 	if !ok {
-		return x.havocUnknown(fr, st, c, args, rt, pos, "invoke on non-interface value")
+		return x.havocUnknownSig(fr, st, sig, args, rt, pos, "invoke on non-interface value")
 	}
-	itype := c.Value.Type()
-	mname := c.Method.Name()
 	ikey := x.eng.ifaceKey(itype, mname)
 	txt := x.srcText(fr.fn, pos, isCall)
 	x.oblige(fr, st, "nil", "iface:"+ikey, "method call on nil interface value: "+txt, pos, Neq(iv.Tag, IntLit(0)), nil)
 	full := append([]Value{iv}, args...)
-	x.bumpCounters(fr, st, ikey, full, append([]types.Type{itype}, sigTypes(c.Signature(), false)...), pos)
+	x.bumpCounters(fr, st, ikey, full, append([]types.Type{itype}, sigTypes(sig, false)...), pos)
 	closed := x.eng.closedWorld(itype)
 	external := func(s2 *State) Value {
 		// interface-level model or contract (open world)
@@ -432,9 +442,9 @@ func (x *Exec) invoke(fr *Frame, st *State, site ssa.Instruction, c *ssa.CallCom
 			}
 		}
 		if ct := x.eng.contracts.Funcs[ikey]; ct != nil {
-			return pack(x.applyIfaceContract(fr, s2, c, ct, full, pos), rt)
+			return pack(x.applyIfaceContract(fr, s2, itype, sig, mname, ct, full, pos), rt)
 		}
-		return x.havocUnknown(fr, s2, c, full, rt, pos, "open-world interface call "+ikey)
+		return x.havocUnknownSig(fr, s2, sig, full, rt, pos, "open-world interface call "+ikey)
 	}
 	impls := x.eng.implementers(itype, mname)
 	if ikey == "(error).Error" {
@@ -462,7 +472,37 @@ func (x *Exec) invoke(fr *Frame, st *State, site ssa.Instruction, c *ssa.CallCom
 		}
 	}
 	if len(impls) == 0 {
-		return x.havocUnknown(fr, st, c, full, rt, pos, "no implementers of "+ikey)
+		return x.havocUnknownSig(fr, st, sig, full, rt, pos, "no implementers of "+ikey)
+	}
+	if x.contract != nil && x.contract.Dispatch != nil && !x.inSpec {
+		if allowed, ok := x.contract.Dispatch[ikey]; ok {
+			var keep []implementer
+			var excluded []Term
+			for _, im := range impls {
+				name := types.TypeString(im.typ, func(p *types.Package) string { return "" })
+				name = strings.ReplaceAll(name, ".", "")
+				isAllowed := false
+				for _, a := range allowed {
+					if a == name {
+						isAllowed = true
+					}
+				}
+				if isAllowed {
+					keep = append(keep, im)
+				} else {
+					excluded = append(excluded, Neq(iv.Tag, IntLit(x.eng.typeTag(im.typ))))
+				}
+			}
+			x.oblige(fr, st, "dispatch", ikey+":"+txt, "receiver of "+txt+" holds none of the package types excluded by the dispatch clause", pos, And(excluded...), nil)
+			impls = keep
+			if len(impls) == 0 {
+				if closed {
+					st.pc = TFalse
+					return x.fresh(rtOrUnit(rt), "nodisp")
+				}
+				return external(st)
+			}
+		}
 	}
 	// case split
 	var states []edge
@@ -501,10 +541,9 @@ func (x *Exec) invoke(fr *Frame, st *State, site ssa.Instruction, c *ssa.CallCom
 	return x.mergeValues(vals, conds, rt, "disp")
 }
 
-func (x *Exec) applyIfaceContract(fr *Frame, st *State, c *ssa.CallCommon, ct *Contract, full []Value, pos token.Pos) []Value {
+func (x *Exec) applyIfaceContract(fr *Frame, st *State, itype types.Type, sig *types.Signature, mname string, ct *Contract, full []Value, pos token.Pos) []Value {
 	// contracts on interface methods name parameters positionally: recv, a0, a1, ... and r0, r1
-	vars := map[string]TV{"recv": {full[0], c.Value.Type()}}
-	sig := c.Signature()
+	vars := map[string]TV{"recv": {full[0], itype}}
 	for i := 0; i < sig.Params().Len() && i+1 < len(full); i++ {
 		tv := TV{full[i+1], sig.Params().At(i).Type()}
 		vars[fmt.Sprintf("a%d", i)] = tv
@@ -531,7 +570,7 @@ func (x *Exec) applyIfaceContract(fr *Frame, st *State, c *ssa.CallCommon, ct *C
 	x.havocArgCells(fr, st, full)
 	var res []Value
 	for i := 0; i < sig.Results().Len(); i++ {
-		r := x.fresh(sig.Results().At(i).Type(), fmt.Sprintf("%s.r%d", c.Method.Name(), i))
+		r := x.fresh(sig.Results().At(i).Type(), fmt.Sprintf("%s.r%d", mname, i))
 		res = append(res, r)
 		tv := TV{r, sig.Results().At(i).Type()}
 		vars[fmt.Sprintf("r%d", i)] = tv
@@ -574,9 +613,13 @@ func (x *Exec) unknownFuncCall(fr *Frame, st *State, c *ssa.CallCommon, args []V
 }
 
 func (x *Exec) havocUnknown(fr *Frame, st *State, c *ssa.CallCommon, args []Value, rt types.Type, pos token.Pos, why string) Value {
+	return x.havocUnknownSig(fr, st, c.Signature(), args, rt, pos, why)
+}
+
+func (x *Exec) havocUnknownSig(fr *Frame, st *State, sig *types.Signature, args []Value, rt types.Type, pos token.Pos, why string) Value {
 	x.vc.note("%s: result and reachable abstract state havocked", why)
 	x.havocArgCells(fr, st, args)
-	x.havocArgs(fr, st, args, c.Signature())
+	x.havocArgs(fr, st, args, sig)
 	if rt == nil {
 		return VStruct{}
 	}
